@@ -769,6 +769,25 @@ def with_helpers(p: Program, fn: FuncInfo, depth: int = 3, policy: Optional[Call
                     seen.add(r.fq)
                     out.append(r)
                     nxt.append(r)
+            # private functions the unit reaches as VALUES: named directly (map(_render, xs), partial(_h, ..)) or through a private
+            # module-level table of functions (`_RENDERERS[bool(as_bytes)]`)
+            names = {n.id for n in ast.walk(f.node) if isinstance(n, ast.Name) and isinstance(n.ctx, ast.Load)}
+            for nm in sorted(names):
+                cands = []
+                tbl = f.module.constants.get(nm) if nm.startswith("_") else None
+                if isinstance(tbl, (ast.Tuple, ast.List, ast.Dict, ast.Call)):
+                    cands = [x.id for x in ast.walk(tbl) if isinstance(x, ast.Name)]
+                elif nm.startswith("_") and not nm.startswith("__"):
+                    cands = [nm]
+                for c_ in cands:
+                    try:
+                        r = p.lookup_name(f.module, c_)
+                    except Exception:
+                        r = None
+                    if isinstance(r, FuncInfo) and r.parent is None and r.cls is None and r.fq not in seen and (policy or default_inline)(r):
+                        seen.add(r.fq)
+                        out.append(r)
+                        nxt.append(r)
         frontier = nxt
     return out
 
